@@ -635,7 +635,7 @@ def run(prog, rep, tier):
     rep.not_decided = ["exact output length and floor/ceil counts under floating-point pointer spacing (runtime quantities)", "whether ravel() returned a view"]
     for r, n in (("R1-outcross", 2), ("R2-tiles", 1), ("R3-sus", 1), ("R4-axis", 2)):
         rep.floor(r, n)
-    check_outcross(prog, rep)
-    check_tiled(prog, rep)
-    check_sus(prog, rep)
-    check_axis(prog, rep)
+    from sa.report import second_reading
+    fs = [f_ for m_ in prog.modules.values() if any(m_.name.startswith(p_) for p_ in ('pybrops.core.random.sampling', 'pybrops.core.util.array')) for f_ in list(m_.functions.values()) + [g_ for c_ in m_.classes.values() for g_ in c_.methods.values()]]
+    for rule_ in (check_outcross, check_tiled, check_sus, check_axis):
+        second_reading(rep, fs, lambda r_, rule_=rule_: rule_(prog, r_))
